@@ -27,7 +27,7 @@ fn placeholders(sql: &str, numbered: bool) -> Vec<(usize, usize, usize)> {
     out
 }
 
-fn corpus() -> Vec<(String, Box<dyn Fn(&dyn QueryBuilder) -> (String, Values, String)>)> {
+pub fn corpus() -> Vec<(String, Box<dyn Fn(&dyn QueryBuilder) -> (String, Values, String)>)> {
     let mut v: Vec<(String, Box<dyn Fn(&dyn QueryBuilder) -> (String, Values, String)>)> = vec![];
     macro_rules! add { ($label:expr, $s:expr) => {{ let s = $s; v.push(($label.to_string(), Box::new(move |qb: &dyn QueryBuilder| { let (sql, vals) = s.build_any(qb); let mut inl = String::new(); s.build_collect_any_into(qb, &mut inl); (sql, vals, inl) }))); }}; }
     let sub = || Query::select().column(a("x")).from(a("u")).and_where(Expr::col(a("x")).gt(7)).limit(3).to_owned();
